@@ -11,7 +11,7 @@ Generic in the scalar type:
   `as i32`/`as usize` casts of the code — for a hole wound the other way).
 * `addInnerVertices_eq`, `buildAux_eq` — one merge step feeds `Loop3D::push`, in order: the outline up to the bridge vertex
   `e`, the whole hole walk `w₀ … w₀`, `e` again, and the rest of the outline (every vertex of the outline and of the hole is
-  fed; each push is `unwrap`ped).
+  fed; a refused push ends `try_get_closed_loop` with that `Err`, which `get_closed_loop` unwraps).
 Over ℝ (`merge_vector_area`, from `Shoelace.pathSum_bridge`): that fed outline `l₁ ++ e :: (w₀ … w₀) ++ e :: l₂` has vector area
 `V(outline) + V(walk)`: the bridge, traversed once in each direction, encloses nothing; with the hole walked against the
 outline's orientation this is the polygon's net area.
@@ -22,8 +22,10 @@ set_option linter.unusedSectionVars false
 variable {α : Type} [Num α]
 
 /-- **a polygon without holes is returned unchanged** (the outer loop with its `closed` flag cleared) -/
-theorem getClosedLoop_no_holes (pg : Polygon α) (h : pg.inner = []) : pg.getClosedLoop = .ok pg.outer.open := by
-  simp [Polygon.getClosedLoop, h, Polygon.closedLoopIter]
+theorem getClosedLoop_no_holes (pg : Polygon α) (h : pg.inner = []) :
+    pg.tryGetClosedLoop = .ok pg.outer.open ∧ pg.getClosedLoop = .ok pg.outer.open := by
+  have h1 : pg.tryGetClosedLoop = .ok pg.outer.open := by simp [Polygon.tryGetClosedLoop, h, Polygon.closedLoopIter]
+  exact ⟨h1, by simp [Polygon.getClosedLoop, h1, Res.unwrap]⟩
 
 theorem open_vertices (l : Loop α) : l.open.vertices = l.vertices ∧ l.open.normal = l.normal ∧ l.open.area = l.area := by
   simp [Loop.open]
@@ -124,11 +126,11 @@ theorem walk_injective (same : Bool) (s n i j : Nat) (hs : s < n) (hi : i < n) (
 
 /-! ## what one merge step feeds to `push` -/
 
-/-- `push(p).unwrap()` over a list of points (each with the site its `unwrap` would panic at) -/
+/-- `push(p)?` over a list of points (each with the name of its call site) -/
 def pushAll : List (V3 α × String) → Loop α → Res (Loop α)
   | [], aux => .ok aux
   | (p, site) :: rest, aux =>
-    match Polygon.pushUnwrap aux p site with
+    match Polygon.pushQ aux p site with
     | .ok aux' => pushAll rest aux'
     | .err e => .err e
     | .panic s => .panic s
@@ -140,7 +142,7 @@ theorem pushAll_append (a b : List (V3 α × String)) (aux : Loop α) :
   | cons x t ih =>
     obtain ⟨p, site⟩ := x
     simp only [List.cons_append, pushAll]
-    cases Polygon.pushUnwrap aux p site with
+    cases Polygon.pushQ aux p site with
     | ok aux' => exact ih aux'
     | err e => rfl
     | panic s => rfl
@@ -194,7 +196,7 @@ theorem addInnerVertices_eq (il : Loop α) (same : Bool) (s : Nat) (hn : 0 < il.
         = walkIdx same s il.vertices.length j := rfl
     rw [hwi, hidx, hw]
     simp only [pushAll, innerSite]
-    cases Polygon.pushUnwrap aux _ "polygon3d.rs:get_closed_loop:push-inner.unwrap" with
+    cases Polygon.pushQ aux _ "polygon3d.rs:get_closed_loop:push-inner.unwrap" with
     | ok aux' => exact ih (j + 1) aux'
     | err e => rfl
     | panic q => rfl
@@ -221,7 +223,7 @@ theorem buildAux_eq (inner : List (Loop α)) (outerNormal : V3 α) (minExt minLo
     intro i aux
     unfold Polygon.buildAux
     simp only [fed, pushAll, extSite, bind, Res.bind]
-    cases h1 : Polygon.pushUnwrap aux e "polygon3d.rs:get_closed_loop:push-ext.unwrap" with
+    cases h1 : Polygon.pushQ aux e "polygon3d.rs:get_closed_loop:push-ext.unwrap" with
     | err e' => rfl
     | panic q => rfl
     | ok aux1 =>
@@ -234,7 +236,7 @@ theorem buildAux_eq (inner : List (Loop α)) (outerNormal : V3 α) (minExt minLo
         | panic q => rfl
         | ok aux2 =>
           simp only [Res.bind, pushAll, returnSite]
-          cases h3 : Polygon.pushUnwrap aux2 e "polygon3d.rs:get_closed_loop:push-return.unwrap" with
+          cases h3 : Polygon.pushQ aux2 e "polygon3d.rs:get_closed_loop:push-return.unwrap" with
           | err e' => rfl
           | panic q => rfl
           | ok aux3 => exact ih (i + 1) aux3
